@@ -79,6 +79,7 @@ class _InitCount(Client):
 
     def __init__(self, cf, key, count_field, item_name, fields):
         self.cf, self.key, self.cnt, self.item, self.fields = cf, key, count_field, item_name, fields
+        self._flows = {}
 
     def should_inline(self, func, call, ctx):
         return False
@@ -94,8 +95,11 @@ class _InitCount(Client):
     def event(self, kind, node, state, ctx):
         present, c = state
         if kind == "store" and isinstance(node, ast.Attribute) and node.attr == self.cnt:
-            d = dotted(node)
-            if d and len(d) == 3 and d[1] == self.cf.lf.payload:
+            from ..flow import Flow
+            from ..util import path_of
+            fl = self._flows.setdefault(id(ctx.func.node), Flow(ctx.func.node))
+            d = path_of(node, fl, keep=(ctx.func.self_name,))       # `item = node.data; item.meta = 1` is `node.data.meta = 1`
+            if d and len(d) >= 3 and d[-2] == self.cf.lf.payload:
                 v = const_value(assigned_value(node), "?") if assigned_value(node) is not None else "?"
                 return ((present, 1 if v == 1 and not isinstance(v, bool) else "other"),)
         if kind in ("construct", "call") and isinstance(node, ast.Call) and self.item and src(node.func) == self.item:
@@ -157,7 +161,9 @@ def r4_counts(prog, rep: Report, cf: CacheFacts, helper: Func, count_field: str)
                   "insertion does not call the increment helper (count set to 1 directly)",
                   f"insertion path calls the increment helper {sorted(absent)} times on top of the initial count",
                   scenario="a new key starts with count 2 and is not the next victim although it is the least used")
-    # insertion paths set the count of the node kept under the key to the constant 1 (all-paths)
+    # insertion paths set the count of the node kept under the key to the constant 1 (all-paths); from here on the statements
+    # of __setitem__ are read with the cache's private helpers inlined (sa/inline.py)
+    f = cf.setitem_v
     item_cls = prog.maybe_cls("Item", CACHES_MOD)
     fields = _dataclass_fields(item_cls) if item_cls is not None else []
     client = _InitCount(cf, f.params[1], count_field, item_cls.name if item_cls else None, fields)
@@ -231,36 +237,73 @@ def r5_helper(prog, rep: Report, cf: CacheFacts, helper: Func, count_field: str)
     if loop is None:
         rep.unrec("C07.R5", f, "scan", "no scan loop found")
         return
-    # scan condition: cursor.next is not None and cursor.next.<payload>.<count> <op> node.<payload>.<count>
-    cmp_ok = None
+    # scan condition, evaluated over the three orderings of (count of the next node, count of the node) with the next node
+    # present: the scan must go on exactly while next.count < node.count (or <=: ties are left open by the property)
+    from ..flow import Flow
+    from ..orderings import NotAFormula, eval_order, weak_orderings
+    flow = Flow(f.node)
     cursor = None
     for sub in ast.walk(loop.test):
-        if isinstance(sub, ast.Compare) and len(sub.ops) == 1:
-            a, b = dotted(sub.left), dotted(sub.comparators[0])
-            if a and b and a[-2:] == (lf.payload, count_field) and b[-2:] == (lf.payload, count_field):
-                op = sub.ops[0]
-                # normalise to  next_count <op> node_count
-                if b == (node, lf.payload, count_field) and len(a) == 4 and a[1] == lf.next_link:
-                    cursor = a[0]
-                    cmp_ok = isinstance(op, (ast.Lt, ast.LtE))
-                elif a == (node, lf.payload, count_field) and len(b) == 4 and b[1] == lf.next_link:
-                    cursor = b[0]
-                    cmp_ok = isinstance(op, (ast.Gt, ast.GtE))
-                else:
-                    cmp_ok = False
-    if cmp_ok is None:
+        d_ = dotted(sub) if isinstance(sub, ast.Attribute) else None
+        if d_ and len(d_) == 4 and d_[1] == lf.next_link and d_[-2:] == (lf.payload, count_field) and d_[0] != node:
+            cursor = d_[0]
+
+    def _ev(e, env):
+        if isinstance(e, ast.BoolOp):
+            vals = [_ev(v, env) for v in e.values]
+            return all(vals) if isinstance(e.op, ast.And) else any(vals)
+        if isinstance(e, ast.UnaryOp) and isinstance(e.op, ast.Not):
+            return not _ev(e.operand, env)
+        if isinstance(e, ast.Compare) and len(e.ops) == 1 and isinstance(e.ops[0], (ast.Is, ast.IsNot)) \
+                and isinstance(e.comparators[0], ast.Constant) and e.comparators[0].value is None:
+            d2 = dotted(e.left)
+            if d2 == (cursor, lf.next_link):
+                return isinstance(e.ops[0], ast.IsNot)        # the next node exists
+            raise NotAFormula(src(e))
+
+        def term(x):
+            d3 = dotted(x)
+            if d3 == (cursor, lf.next_link, lf.payload, count_field):
+                return env["next"]
+            if d3 == (node, lf.payload, count_field):
+                return env["node"]
+            return None
+        return eval_order(e, env, term)
+    if cursor is None:
         rep.unrec("C07.R5", f, "scan", f"scan condition not recognised: {src(loop.test)}")
     else:
-        rep.check("C07.R5", f, "scan", cmp_ok, f"scan continues while next.count < / <= node.count ({src(loop.test)})",
-                  f"scan condition `{src(loop.test)}` does not walk past exactly the nodes with a smaller count",
-                  scenario="counts 1,2,3 in the list; using the count-1 node twice must place it behind the 2; a wrong "
-                           "comparison leaves the list unsorted and a non-minimal key is evicted", line=loop.lineno)
-    # step: cursor = cursor.next
-    steps = [st for st in loop.body if isinstance(st, ast.Assign) and len(st.targets) == 1
-             and isinstance(st.targets[0], ast.Name) and dotted(st.value) == (st.targets[0].id, lf.next_link)]
-    rep.check("C07.R5", f, "scan-step", len(steps) == 1 and len(loop.body) == 1,
-              "scan advances along the next link", f"scan body is not a single step along .{lf.next_link}",
-              scenario="scan walks the wrong direction or skips nodes", line=loop.lineno)
+        try:
+            W = weak_orderings(["next", "node"])
+            got = {(w["next"] < w["node"], w["next"] == w["node"]): _ev(loop.test, w) for w in W}
+            strict = got.get((True, False)) is True and got.get((False, True)) is False and got.get((False, False)) is False
+            loose = got.get((True, False)) is True and got.get((False, True)) is True and got.get((False, False)) is False
+            rep.check("C07.R5", f, "scan", strict or loose, f"scan continues while next.count < / <= node.count ({src(loop.test)})",
+                      f"scan condition `{src(loop.test)}` does not walk past exactly the nodes with a smaller count",
+                      scenario="counts 1,2,3 in the list; using the count-1 node twice must place it behind the 2; a wrong "
+                               "comparison leaves the list unsorted and a non-minimal key is evicted", line=loop.lineno)
+        except NotAFormula as e:
+            rep.unrec("C07.R5", f, "scan", f"scan condition not recognised: {src(loop.test)} ({e})")
+    # step: cursor = cursor.next (possibly through a local that names the next node)
+    steps, others = [], []
+    for st in loop.body:
+        if isinstance(st, ast.Assign) and len(st.targets) == 1 and isinstance(st.targets[0], ast.Name):
+            tgt = st.targets[0].id
+            ex_ = flow.expand(st.value) if isinstance(st.value, ast.Name) else st.value
+            if tgt == cursor and dotted(ex_) == (cursor, lf.next_link):
+                steps.append(st)
+                continue
+            if tgt != cursor and dotted(st.value) and dotted(st.value)[0] in (cursor, node):
+                continue            # a read-only alias (following = cursor.next)
+        others.append(st)
+    wrong_way = [st for st in loop.body if isinstance(st, ast.Assign) and isinstance(st.targets[0], ast.Name)
+                 and st.targets[0].id == cursor and dotted(st.value) == (cursor, lf.prev_link)]
+    if wrong_way:
+        rep.viol("C07.R5", f, "scan-step", f"the scan steps along .{lf.prev_link}: it walks towards the head",
+                 scenario="scan walks the wrong direction", line=loop.lineno)
+    elif len(steps) == 1 and not others:
+        rep.ok("C07.R5", f, "scan-step", "scan advances along the next link")
+    else:
+        rep.unrec("C07.R5", f, "scan-step", f"scan body is not a single step along .{lf.next_link} (plus read-only aliases)", line=loop.lineno)
     # move: guarded by identity, move_after(node, cursor)
     moved = None
     for st in body[(loop_i or 0) + 1:]:
@@ -270,6 +313,13 @@ def r5_helper(prog, rep: Report, cf: CacheFacts, helper: Func, count_field: str)
                 guard = st.test if isinstance(st, ast.If) else None
                 ident = guard is not None and isinstance(guard, ast.Compare) and isinstance(guard.ops[0], (ast.IsNot, ast.Is)) \
                     and {src(guard.left), src(guard.comparators[0])} == {node, cursor or "?"}
+                if not ident:
+                    # guard clause form:  if cursor is node: return   ...   move(node, cursor)
+                    for g_ in body[(loop_i or 0) + 1:body.index(st)]:
+                        if isinstance(g_, ast.If) and isinstance(g_.test, ast.Compare) and isinstance(g_.test.ops[0], ast.Is) \
+                                and {src(g_.test.left), src(g_.test.comparators[0])} == {node, cursor or "?"} \
+                                and g_.body and isinstance(g_.body[-1], ast.Return) and not g_.orelse:
+                            ident = True
                 tgt = prog.resolve(lf.lst, call.func.attr)
                 good_args = tgt is not None and len(tgt.params) == 3 and args == [node, cursor]
                 moved = (ident, good_args, call)
@@ -289,7 +339,10 @@ def r6_item_layout(prog, rep: Report, cf: CacheFacts, count_field: str):
     rep.rule("C07.R6", "payload layout agreement: the Item constructed for a new key receives (key, value, count) in its "
              "field order; lookup returns the value field; iteration and eviction use the key field", floor=3)
     item_cls = prog.maybe_cls("Item", CACHES_MOD)
-    f = cf.setitem
+    f = cf.setitem_v        # statements of __setitem__ with the cache's private helpers inlined
+    from ..flow import Flow
+    from ..util import path_of
+    sflow = Flow(f.node)
     if item_cls is None:
         rep.unrec("C07.R6", f, "writer", "Item class not found")
         return
@@ -314,9 +367,9 @@ def r6_item_layout(prog, rep: Report, cf: CacheFacts, count_field: str):
     reuse = {}
     for t, val, _st in iter_stores(f.node):
         if isinstance(val, ast.Name):
-            d = dotted(t)
-            if d and len(d) == 3 and d[1] == cf.lf.payload:
-                reuse[val.id] = d[2]
+            d = path_of(t, sflow, keep=(f.self_name,))     # `item = node.data; item.key = k` is `node.data.key = k`
+            if d and len(d) >= 3 and d[-2] == cf.lf.payload:
+                reuse[val.id] = d[-1]
     rep.check("C07.R6", f, "reuse-writes-same-fields", reuse.get(k) == kf and reuse.get(v) == vf,
               "the reuse path writes key and value into the same fields",
               f"reuse path writes key -> .{reuse.get(k)}, value -> .{reuse.get(v)} (constructor: .{kf}, .{vf})",
@@ -335,7 +388,7 @@ def r6_item_layout(prog, rep: Report, cf: CacheFacts, count_field: str):
         if isinstance(n, ast.Delete):
             for t in n.targets:
                 if isinstance(t, ast.Subscript) and cf.is_dict(t.value, f) and not (isinstance(t.slice, ast.Name) and t.slice.id == k):
-                    ev.append((dotted(t.slice), n))
+                    ev.append((path_of(t.slice, sflow, keep=(f.self_name,)), n))
     for d, n in ev:
         rep.check("C07.R6", f, "evicts-victim-key", bool(d) and d[-1] == kf and d[-2] == cf.lf.payload,
                   f"evicts the victim node's .{kf}", f"evicts dict key {'.'.join(d) if d else '?'}",
